@@ -269,7 +269,7 @@ func init() {
 	addMutant(Mutant{Name: "c08-format-from-data", Property: "C08", File: "ygot/pathstrings.go",
 		Old: "name = fmt.Sprintf(\"%s[%s=%s]\", name, k, v)", New: "name = fmt.Sprintf(name+\"[%s=%s]\", k, v)", Expect: "elemToString:format"})
 	addMutant(Mutant{Name: "c10-key-compare-fold", Property: "C10", File: "ytypes/node.go",
-		Old: "\t\t\tif keyAsString == pathKey {", New: "\t\t\tif fmt.Sprint(keyAsString) == fmt.Sprint(pathKey) {", Expect: "retrieveNodeList:key-compare"})
+		Old: "\t\t\tif keyAsString == canonicalPathKey(pathKey, reflect.TypeOf(kv)) {", New: "\t\t\tif keyAsString == util.StripModulePrefix(canonicalPathKey(pathKey, reflect.TypeOf(kv))) {", Expect: "retrieveNodeList:key-compare"})
 	addMutant(Mutant{Name: "c10-decimal-float-div", Property: "C10", File: "ytypes/leaf.go",
 		Old: "\t\t\tfv, _ := new(big.Rat).SetFrac(big.NewInt(v.DecimalVal.Digits), prec).Float64()", New: "\t\t\tpf, _ := new(big.Float).SetInt(prec).Float64()\n\t\t\tfv := float64(v.DecimalVal.Digits) / pf", Expect: "sanitizeGNMI:float-of-int64"})
 	addMutant(Mutant{Name: "c16-parse-any-base", Property: "C16", File: "ytypes/util_types.go",
